@@ -88,9 +88,149 @@ mod probes {
         }
     }
 
+
+    // ------------------------------------------------------------------------------- C12
+    mod c12 {
+        use super::*;
+        use crate::edit::*;
+
+        /// reference dynamic programme, written from the property statement (code points)
+        fn reference(a: &[char], b: &[char], sw: bool, sp: bool) -> Vec<Vec<usize>> {
+            let (n, m) = (a.len(), b.len());
+            let mut d = vec![vec![0usize; m + 1]; n + 1];
+            for i in 0..=n {
+                for j in 0..=m {
+                    if i == 0 { d[i][j] = j; continue; }
+                    if j == 0 { d[i][j] = i; continue; }
+                    let mut best = (d[i - 1][j] + 1).min(d[i][j - 1] + 1);
+                    if a[i - 1] == b[j - 1] {
+                        best = best.min(d[i - 1][j - 1]);
+                    } else if !sp || (!a[i - 1].is_whitespace() && !b[j - 1].is_whitespace()) {
+                        best = best.min(d[i - 1][j - 1] + 1);
+                    }
+                    if sw && i > 1 && j > 1 && a[i - 1] == b[j - 2] && a[i - 2] == b[j - 1]
+                        && (!sp || (!a[i - 1].is_whitespace() && !a[i - 2].is_whitespace())) {
+                        best = best.min(d[i - 2][j - 2] + 1);
+                    }
+                    d[i][j] = best;
+                }
+            }
+            d
+        }
+
+        /// apply a position-sorted script to `a` (positions refer to a and b as reported by operations())
+        fn apply(a: &[char], b: &[char], script: &[(EditOperation, usize, usize)]) -> Option<Vec<char>> {
+            let mut out = vec![];
+            let mut i = 0usize;
+            for (op, ai, bj) in script {
+                if *ai < i || *ai > a.len() { return None; }
+                out.extend_from_slice(&a[i..*ai]);
+                i = *ai;
+                if out.len() != *bj { return None; }
+                match op {
+                    EditOperation::Insert => { out.push(*b.get(*bj)?); }
+                    EditOperation::Delete => { i += 1; }
+                    EditOperation::Replace => { out.push(*b.get(*bj)?); i += 1; }
+                    EditOperation::Swap => { out.push(*a.get(i + 1)?); out.push(*a.get(i)?); i += 2; }
+                }
+            }
+            if i > a.len() { return None; }
+            out.extend_from_slice(&a[i..]);
+            Some(out)
+        }
+
+        pub fn check(a: &str, b: &str, sw: bool, sp: bool) -> Result<(), String> {
+            let (ac, bc): (Vec<char>, Vec<char>) = (a.chars().collect(), b.chars().collect());
+            let d = reference(&ac, &bc, sw, sp);
+            let want = d[ac.len()][bc.len()];
+            let got = distance(a, b, false, sw, sp, false);
+            if got != want as f64 {
+                return Err(format!("distance({a:?},{b:?},swap={sw},spaces={sp}) = {got}, reference DP = {want}"));
+            }
+            let nd = distance(a, b, false, sw, sp, true);
+            if !nd.is_finite() {
+                return Err(format!("normalized distance({a:?},{b:?}) = {nd} (not finite)"));
+            }
+            if a == b && nd != 0.0 {
+                return Err(format!("normalized distance of equal strings {a:?} = {nd}"));
+            }
+            // under spaces_insert_delete_only the value can exceed 1 (known finding, see /verif/known_findings.txt);
+            // it is only reported when VT_INCLUDE_KNOWN is set
+            if (!sp || std::env::var("VT_INCLUDE_KNOWN").is_ok()) && !(0.0..=1.0).contains(&nd) {
+                return Err(format!("normalized distance({a:?},{b:?}) = {nd} outside [0,1]"));
+            }
+            let longer = ac.len().max(bc.len());
+            if longer > 0 && nd != want as f64 / longer as f64 {
+                return Err(format!("normalized distance({a:?},{b:?}) = {nd}, expected {want}/{longer}"));
+            }
+            let pmin = *d[ac.len()].iter().min().unwrap();
+            let pd = prefix_distance(a, b, false, sw, sp, false);
+            if pd != pmin as f64 {
+                return Err(format!("prefix_distance({a:?},{b:?}) = {pd}, minimum over prefixes = {pmin}"));
+            }
+            let script = operations(a, b, false, sw, sp);
+            if script.len() != want {
+                return Err(format!("operations({a:?},{b:?}) has {} entries, distance is {want}", script.len()));
+            }
+            for w in script.windows(2) {
+                if w[0].1 > w[1].1 || w[0].2 > w[1].2 {
+                    return Err(format!("operations({a:?},{b:?}) not sorted by position: {script:?}"));
+                }
+            }
+            match apply(&ac, &bc, &script) {
+                Some(out) if out == bc => Ok(()),
+                other => Err(format!("applying operations({a:?},{b:?}) = {script:?} to a yields {other:?}, not b")),
+            }
+        }
+
+        pub fn replay(input: &Value) -> Result<(), String> {
+            check(
+                input["a"].as_str().ok_or("a")?,
+                input["b"].as_str().ok_or("b")?,
+                input["with_swap"].as_bool().unwrap_or(true),
+                input["spaces_insert_delete_only"].as_bool().unwrap_or(false),
+            )
+        }
+
+        fn strings(alpha: &[char], max: usize) -> Vec<String> {
+            let mut out = vec![String::new()];
+            let mut last = vec![String::new()];
+            for _ in 0..max {
+                let mut next = vec![];
+                for s in &last {
+                    for c in alpha {
+                        let mut t = s.clone();
+                        t.push(*c);
+                        next.push(t);
+                    }
+                }
+                out.extend(next.iter().cloned());
+                last = next;
+            }
+            out
+        }
+
+        pub fn search() -> Option<(Value, String)> {
+            let ss = strings(&['a', 'b', ' '], 3);
+            for sw in [false, true] {
+                for sp in [false, true] {
+                    for a in &ss {
+                        for b in &ss {
+                            let r = std::panic::catch_unwind(|| check(a, b, sw, sp));
+                            let e = match r { Ok(Ok(())) => continue, Ok(Err(e)) => e, Err(_) => "panic".to_string() };
+                            return Some((json!({"a": a, "b": b, "with_swap": sw, "spaces_insert_delete_only": sp}), e));
+                        }
+                    }
+                }
+            }
+            None
+        }
+    }
+
     fn dispatch_replay(prop: &str, input: &Value) -> Result<(), String> {
         match prop {
             "C04" => c04::replay(input),
+            "C12" => c12::replay(input),
             _ => Err(format!("no probe for {prop}")),
         }
     }
@@ -98,6 +238,7 @@ mod probes {
     fn dispatch_search(prop: &str) -> Option<(Value, String)> {
         match prop {
             "C04" => c04::search(),
+            "C12" => c12::search(),
             _ => None,
         }
     }
